@@ -228,6 +228,8 @@ def run_prop(prop, tier, seed):
         if len(rep.cov["samples"]) < 3 and hists:
             h = hists[len(hists) // 2]
             rep.sample(dict(threads=nt, calls=nc, max_preemptions=k, schedule=" ".join("%s%d" % (s["a"][0].upper(), s["t"]) + ("'" if s["p"] else "") for s in h)))
+    if prop == "C09":
+        total += tsan_stress(rep, tier)
     rep.cov["traces_validated_against_impl"] = total
     rep.cov["evaluations"] = total
     rep.cov["distinct_nontrivial"] = nontriv
@@ -242,3 +244,65 @@ def run_prop(prop, tier, seed):
 
 def run(tier, seed, replay_file=None):
     return run_prop("C09", tier, seed)
+
+
+# ------------------------------------------------------------------------------------------------
+# ThreadSanitizer stress: state shared OUTSIDE the repository lock (not a scheduling point of the replay)
+STRESS_FMT = ("%{tid} %{snoopy_threads} %{login} %{username} %{eusername} %{group} %{cwd} %{hostname} %{datetime} %{tty} %{tty_username} %{env:HOME} "
+              "%{rpname} %{cgroup:0} %{pid} %{timestamp_ms} %{filename} %{cmdline}")
+IGNORED_FILES = ("/src/tsrm.c", "/src/util/list.c")
+
+
+def tsan_stress(rep, tier, outputs=("file", "devlog", "stdout")):
+    b = c.build("tsan", tag="C09tsan")
+    src, root = b["src"], b["root"]
+    r = subprocess.run(["gcc", "-c", "-O1", "-g", "-o", root + "/hidden.o", os.path.join(c.VERIF, "harness/tsstress_hidden.c")], capture_output=True, text=True)
+    if r.returncode:
+        raise c.MachineryError("tsstress_hidden.c does not compile: " + r.stderr[-500:])
+    cmd = ["clang", "-g", "-O1", "-fsanitize=thread", "-o", root + "/tsstress", os.path.join(c.VERIF, "harness/tsstress.c"), root + "/hidden.o",
+           src + "/src/entrypoint/.libs/libsnoopy-entrypoint-execve-wrapper.a", src + "/src/.libs/libsnoopy-no-entrypoint.a",
+           "-Wl,--wrap=pthread_mutex_lock", "-Wl,--wrap=pthread_mutex_unlock", "-lpthread", "-ldl"]
+    r = subprocess.run(cmd, capture_output=True, text=True)
+    if r.returncode:
+        raise c.MachineryError("cannot link the TSan stress driver: " + r.stderr[-1000:])
+    nthreads, ncalls = (8, 120) if tier == "quick" else (64, 150)
+
+    def races(out):
+        found = {}
+        for rp in out.split("WARNING: ThreadSanitizer: data race")[1:]:
+            stacks = re.split(r"\n\s*\n", rp)
+            tops = []
+            for st in stacks[:2]:
+                fr = re.findall(r"#\d+ (\w+) (\S+?):(\d+)", st)
+                own = [(fn, f, ln) for fn, f, ln in fr if "/src/src/" in f or "/src/lib/" in f]
+                tops.append(own[0] if own else None)
+            if len(tops) == 2 and all(tops) and not any(t[1].endswith(x) for t in tops for x in IGNORED_FILES):
+                key = tuple(sorted("%s:%s" % (os.path.basename(t[1]), t[0]) for t in tops))
+                found[key] = ["%s %s:%s" % (t[0], t[1].split("/src/src/")[-1], t[2]) for t in tops]
+        return found
+
+    runs = 0
+    for out in outputs:
+        log = os.path.join(root, "stress-%s.log" % out)
+        ini = os.path.join(root, "stress-%s.ini" % out)
+        open(ini, "w").write('[snoopy]\nmessage_format = "%s"\noutput = %s\nsyslog_ident = "id-%%{pid}"\n' % (STRESS_FMT, {"file": "file:" + log, "devlog": "devlog", "stdout": "stdout"}[out]))
+        env = dict(os.environ, TSAN_OPTIONS="halt_on_error=0 report_signal_unsafe=0 history_size=4 exitcode=0")
+
+        def once():
+            p = subprocess.run([root + "/tsstress", ini, str(nthreads), str(ncalls)], capture_output=True, text=True, env=env, timeout=900, stdin=subprocess.DEVNULL)
+            return races(p.stderr), p.returncode
+        f1, rc1 = once()
+        runs += 1
+        if rc1 not in (0,):
+            rep.violation("stress-crash:" + out, "%d threads x %d calls with output %s under ThreadSanitizer: the process ended with status %s" % (nthreads, ncalls, out, rc1), dict(output=out))
+        if f1:
+            f2, _ = once()                       # a race counts only if it shows again
+            runs += 1
+            for key in f1:
+                if key in f2:
+                    rep.violation("race:" + "+".join(key), "data race outside the repository lock (%d threads, output %s): %s <-> %s" % (nthreads, out, f1[key][0], f1[key][1]),
+                                  dict(output=out, threads=nthreads, frames=f1[key]))
+    rep.cov["tsan_stress_runs"] = runs
+    rep.cov["tsan_stress_threads_x_calls"] = [nthreads, ncalls]
+    rep.assumptions.append("TSan stress: the repository mutex is hidden from the race detector (so it cannot order unrelated accesses) and reports with a racing frame in tsrm.c / util/list.c are ignored")
+    return runs
